@@ -31,12 +31,28 @@
     (`C08_counters_u64_run`: of every history from `Fw.init`, where all counters are 0).
     (`Proofs/CounterLog.lean`; needs no validity or no-fault hypothesis: the fuel potential
     2 x unset flags + 2 <= 8 guarantees that the delivery is really made.)
+  * `C08_call_values`: VALUES on the log, whole call (any machines, oracle, batch): the monitor's
+    third rule `C08.checkValues`, started with the states of the snapshot before the call and no
+    raw samples, accepts the chronological log segment of the call: every logged update equals the
+    specified saturating operation on the specified operand - 1, the saturating cast of the clamped
+    raw sample logged right before the entry (A's sample first), or the other counter's value from
+    before the update - in the state tracked from the `sampled` entries.
+  * `C08_monitor_accepts_model`: the monitor tied to the model. `C08.monitor` returns `none` on the
+    trace the model itself produces (`LL.modelTrace`: per call the events, outcome, actions,
+    snapshot and the call's log, as the driver records them) for EVERY machine set, configuration,
+    oracle and history: all four rules (values, adjacency, no CounterZero first, no stray
+    CounterZero) hold for every call, the snapshot handed from call to call is the model's, and a
+    faulting call ends the walk. So the check cannot raise a false alarm on an implementation that
+    agrees with the model, and the model has the property in the monitor's own vocabulary. No
+    hypothesis is needed (no validity, no-fault or packet-count assumption).
+    (`Proofs/MonitorAcceptB.lean`)
   The implementation is tied to this by the correspondence on counter values (tag RC), the
   internal log (tag L, with the hook's counter entries) and the monitor `C08.monitor`.
 -/
 import MbVerif.Proofs.SafeCall
 import MbVerif.Proofs.CzCount
 import MbVerif.Proofs.CounterLog
+import MbVerif.Proofs.MonitorAcceptB
 
 namespace Mb.C08
 open Mb
@@ -283,5 +299,100 @@ example : (checkLog { a := [], b := [] } [.counter 0 1 0 0 0]).isSome = true ∧
     (checkLog { a := [], b := [] } [.counter 0 1 1 0 0, .trans 0 Gen.EV_CounterZero 3]).isSome = true ∧
     checkLog { a := [], b := [] } [.counter 0 1 0 0 0, .trans 0 Gen.EV_CounterZero 3, .counter 0 1 0 0 0] = none ∧
     (strayCZ [.draw 0, .trans 0 Gen.EV_CounterZero 3]).isSome = true := by decide
+
+/-! ### the monitor tied to the model -/
+
+/-- **Values on the log, whole call.** For every machine set, oracle, batch and time: the monitor's
+    value rule `checkValues`, started with the states of the snapshot before the call (`LL.stOf
+    s.snap`: the `state` field per machine) and no raw samples, accepts the chronological log segment
+    of the call. In plain terms: every `counter mi ao an bo bn` entry has `an = ao (op_A) v_A` and
+    `bn = bo (op_B) v_B` with the operations and operand kinds the machine description gives for the
+    state machine `mi` is in at that point (tracked from the `sampled` entries), where an operand is
+    `bo` resp. `ao` for `copy`, 1 without a distribution, and otherwise the saturating u64 cast of the
+    clamped raw sample logged directly before the entry (A's sample before B's). -/
+theorem C08_call_values (ms : List Machine) (es : List TEvent) (t : Int) (s : Fw σ) (hm : s.machines = ms)
+    (l : List LogEntry) (hl : (triggerEvents ρ es t s).log = l ++ s.log) :
+    checkValues ms (LL.stOf s.snap) [] l.reverse = none := by
+  obtain ⟨_, c, hc, hv⟩ := MB.call_values ρ (ms := ms) es t s hm
+  have : l = c.reverse := List.append_cancel_right (hl.symm.trans hc)
+  rw [this, List.reverse_reverse, MB.stOf_snap]
+  exact hv
+
+/-- **`C08.monitor` accepts the model's own trace of every history**: for every machine set,
+    configuration, oracle and history of calls, the monitor applied to the trace of the model
+    (`LL.modelTrace`: the records the driver builds - events, outcome, returned actions, snapshot and
+    the call's log, the ghost log being emptied before each call) reports no violation. No
+    hypothesis: the four rules hold for every call of every run (`C08_call_values`,
+    `C08_log_adjacent` with `C08_counters_u64_run`), and the monitor stops at a call that faults. -/
+theorem C08_monitor_accepts_model (ms : List Machine) (fp fb : F64) (t0 : Int) (rng : σ) (h : List Call) :
+    monitor (LL.modelTrace ρ ms fp fb t0 rng h) = none :=
+  MB.monitor08_model ρ ms fp fb t0 rng h
+
+section MonitorDemo
+
+/-- the constant 2.0 -/
+private def dTwo : Dist := { dist := .uniform 4611686018427387904 4611686018427387904, start := 0, max := 0 }
+/-- state 0: no counters; NormalSent leads to state 1 -/
+private def cSt0 : State :=
+  { action := none, counterA := none, counterB := none,
+    transitions := (List.replicate 13 none).set 3 (some [{ target := 1, prob := 1065353216 }]) }
+/-- state 1: A := sample (2), B += 1; NormalSent leads to state 2 -/
+private def cSt1 : State :=
+  { action := none,
+    counterA := some { operation := .set, dist := some dTwo, copy := false },
+    counterB := some { operation := .increment, dist := none, copy := false },
+    transitions := (List.replicate 13 none).set 3 (some [{ target := 2, prob := 1065353216 }]) }
+/-- state 2: A -= sample (2), B := old A; CounterZero leads to state 3, NormalSent back to state 1 -/
+private def cSt2 : State :=
+  { action := none,
+    counterA := some { operation := .decrement, dist := some dTwo, copy := false },
+    counterB := some { operation := .set, dist := none, copy := true },
+    transitions := ((List.replicate 13 none).set 9 (some [{ target := 3, prob := 1065353216 }])).set 3
+      (some [{ target := 1, prob := 1065353216 }]) }
+/-- state 3: B -= sample (2); CounterZero leads to state 0 -/
+private def cSt3 : State :=
+  { action := none, counterA := none,
+    counterB := some { operation := .decrement, dist := some dTwo, copy := false },
+    transitions := (List.replicate 13 none).set 9 (some [{ target := 0, prob := 1065353216 }]) }
+private def cM : Machine :=
+  { allowedPaddingPackets := 0, maxPaddingFrac := 0, allowedBlockedMicrosec := 0, maxBlockingFrac := 0,
+    states := [cSt0, cSt1, cSt2, cSt3] }
+private def cρ : Oracle Unit := { u := fun _ => (0, ()), d := fun _ _ => (0, ()) }
+private def cTrace : FwTrace :=
+  LL.modelTrace cρ [cM] 0 0 0 () [([.normalSent, .normalSent], 10), ([.normalSent, .normalSent, .normalSent, .normalSent], 20)]
+
+/-- Non-vacuity of `C08_monitor_accepts_model`: no call faults (the monitor walks both). The first
+    call's log holds a sampled operand (`set` to 2 after the raw sample 2.0), a unit increment, a
+    decrement by a sample that takes A from 2 to 0 with B copied from A's OLD value 2, directly
+    followed by the CounterZero delivery (event 9), whose transition zeroes B (2 - 2) and is followed
+    by the second delivery. In the second call the same happens, and its last NormalSent takes A
+    from 2 to 0 AGAIN (entries 29..34): no CounterZero follows, A's flag is already set in that call. -/
+example : cTrace.calls.map (·.res) = [.ok, .ok] ∧
+    cTrace.calls.map (·.log.length) = [23, 35] ∧
+    (cTrace.calls.map (·.log)).head? = some
+      [.trans 0 3 0, .draw 0, .sampled 0 3 1, .limit 0 18446744073709551615 false,
+        .distRaw 4611686018427387904, .counter 0 0 2 0 1,
+       .trans 0 3 1, .draw 0, .sampled 0 3 2, .limit 0 18446744073709551615 false,
+        .distRaw 4611686018427387904, .counter 0 2 0 1 2,
+       .trans 0 9 2, .draw 0, .sampled 0 9 3, .limit 0 18446744073709551615 false,
+        .distRaw 4611686018427387904, .counter 0 0 0 2 0,
+       .trans 0 9 3, .draw 0, .sampled 0 9 0, .limit 0 18446744073709551615 false, .counter 0 0 0 0 0] ∧
+    (cTrace.calls.map (·.log.drop 29)) =
+      [[], [.trans 0 3 1, .draw 0, .sampled 0 3 2, .limit 0 18446744073709551615 false,
+        .distRaw 4611686018427387904, .counter 0 2 0 1 2]] ∧
+    monitor cTrace = none := by decide +kernel
+
+/-- Non-vacuity of the value rule (machine in state 0): the model's first update is accepted; a wrong
+    result of `set`, a missing unit increment of B and a `copy` that reads the NEW value of the other
+    counter are all rejected. -/
+example :
+    checkValues [cM] (fun _ => 0) [] [.sampled 0 3 1, .distRaw 4611686018427387904, .counter 0 0 2 0 1] = none ∧
+    (checkValues [cM] (fun _ => 0) [] [.sampled 0 3 1, .distRaw 4611686018427387904, .counter 0 0 3 0 1]).isSome = true ∧
+    (checkValues [cM] (fun _ => 0) [] [.sampled 0 3 1, .distRaw 4611686018427387904, .counter 0 0 2 0 0]).isSome = true ∧
+    checkValues [cM] (fun _ => 1) [] [.sampled 0 3 2, .distRaw 4611686018427387904, .counter 0 2 0 1 2] = none ∧
+    (checkValues [cM] (fun _ => 1) [] [.sampled 0 3 2, .distRaw 4611686018427387904, .counter 0 2 0 1 0]).isSome = true := by
+  decide +kernel
+
+end MonitorDemo
 
 end Mb.C08
